@@ -147,7 +147,19 @@ func tf(b bool) string {
 
 func init() {
 	moreOps["PARSE"] = func(c Case) string {
-		return fmtParse(parser.Parse(unhex(c.Fields[0])))
+		src := unhex(c.Fields[0])
+		first := fmtParse(parser.Parse(src))
+		// history: Parse is a function of its argument; parse related sources (a prefix, an
+		// extension, a failing and a succeeding one) in between and ask again
+		if len(src) <= 4096 {
+			for _, other := range []string{src[:len(src)/2], src + " | count", "T | where (", "T | take 1", src + ";" + src} {
+				parser.Parse(other)
+				if again := fmtParse(parser.Parse(src)); again != first {
+					return again
+				}
+			}
+		}
+		return first
 	}
 	moreOps["PARSEV"] = moreOps["PARSE"]
 }
